@@ -17,6 +17,8 @@ P["C01"] = dict(
         "T-SERIES: for every PolynomialCoefficients table, inv is the exact series reversion of fwd to n^6 (both orders)",
         "R-DISPATCH: Op::apply maps (inverted, direction) to the fwd/inv slot by the documented truth table; "
         "handle_inversion toggles iff requested and invertible, else Err",
+        "R-GATHER-SCATTER: the inverse of adapt/axisswap is the exact reverse element mapping of the forward",
+        "R-SIGN-SLICE: every laea aspect (north/south polar) is reachable",
     ],
     not_decided=["numerical round-trip accuracy of any operator", "domain limits", "grid based shifts"],
     level="Decides structural clauses that are necessary conditions of 'inverse undoes forward' (see decides); does "
@@ -50,7 +52,12 @@ P["C11"] = dict(
     claimed=True,
     technique="static analysis: exact checks of the unit and adaptor tables from HIR constants",
     decides=["T-UNITS: unit names unique over linear++angular (first-hit lookup), multiplier = own factor string = "
-             "published factor", "T-ADAPTORS: the 8 documented adaptor macros, registered by both contexts"],
+             "published factor", "T-ADAPTORS: the 8 documented adaptor macros, registered by both contexts",
+             "R-GATHER-SCATTER: adapt and axisswap forward gather out[k]=in[perm[k]]*m[k]; the inverse is the scatter "
+             "out[perm[k]]=in[k]*m'[k] with the multiplier at the same index",
+             "R-INDEX-SPACE: combine_descriptors indexes the source descriptor's multipliers by source positions",
+             "R-UNITCONVERT-WIRING: fwd multiplies / inv divides elements 0,1 by xy_in*1/xy_out and element 2 by "
+             "z_in*1/z_out; the constructor stores the factor of the right unit name under each key"],
     not_decided=["acceptance/rejection of descriptor words", "axisswap validation"],
     level="Decides the table clauses (every unit name resolves to its own factor; adaptor macros as documented).",
     design_ref="DESIGN.md section 3, C11",
